@@ -140,6 +140,13 @@ def _h_signed(key, depth=1):
     return [_fnv64(kb, 1469598103934665603 + 131 * i) - (1 << 63) for i in range(depth)]
 
 
+def _h_fnv_first(key, depth=1):
+    """agrees with the default strategy on the FIRST value only (a compatibility probe that looks at one hash cannot tell them apart)"""
+    from probables.hashes import fnv_1a
+    kb = _as_bytes(key)
+    return [fnv_1a(key, 0)] + [_fnv64(kb, 14695981039346656037 + 977 * i + 3) for i in range(1, depth)]
+
+
 def _h_tiny(key, depth=1):
     """values in 0..3 only: everything collides in any geometry"""
     kb = _as_bytes(key)
@@ -185,6 +192,10 @@ def hash_by_name(name):
         f = _h_pairs
     elif name == "tiny":
         f = _h_tiny
+    elif name == "fnv_first":
+        f = _h_fnv_first
+    elif name == "dec_fnv":  # hash_with_depth_int(fnv_1a): first value equals the default strategy's, the chain differs
+        f = H.hash_with_depth_int(H.fnv_1a)
     elif name == "wide":
         f = _h_wide
     elif name == "signed":
@@ -195,7 +206,7 @@ def hash_by_name(name):
     return f
 
 
-GOOD_HASHES = ["default", "fnv", "md5", "sha256", "dec_int", "dec_bytes", "salted", "wide", "signed"]
+GOOD_HASHES = ["default", "fnv", "md5", "sha256", "dec_int", "dec_bytes", "salted", "wide", "signed", "fnv_first", "dec_fnv"]
 DEGENERATE_HASHES = ["coincide", "bylen", "ident", "pairs", "tiny"]
 ALL_HASHES = GOOD_HASHES + DEGENERATE_HASHES
 
@@ -222,6 +233,10 @@ def simple_hash_by_name(name):
     elif name == "narrow16":
         def f(key, *a):
             return (_fnv64(_as_bytes(key)) % 13) * 256 + (_fnv64(_as_bytes(key), 99) % 3)
+    elif name == "clustered":  # ~24 distinct fingerprints whose candidate buckets concentrate on 0..2: buckets overflow into the
+        def f(key, *a):        # alternate bucket, which then holds several entries
+            kb = _as_bytes(key)
+            return (_fnv64(kb) % 8) * 64 + (_fnv64(kb, 7) % 3)
     elif name == "sha":
         def f(key, *a):
             return int.from_bytes(hashlib.sha256(_as_bytes(key)).digest()[:8], "big")
